@@ -15,6 +15,7 @@ LEVEL = 'exploration'
 SHARDS = {'quick': 4, 'thorough': 16}
 TIMEOUT = {'quick': 300, 'thorough': 3000}
 N_WORLDS = {'quick': 2500, 'thorough': 200000}
+N_BIG = {'quick': 16, 'thorough': 1000}         # scale regime: 80-400 agents with churn
 RULE = ('cases: seeded worlds (SpaceWorld continuous, DiscreteWorld/GridWorld/LineWorld; extents mixing 0 and >=1; wrap on/off) with 0-8 '
         'agents, 10 queries each; before a query some agents are moved exactly onto the faces q+-L of the box, made coincident, moved '
         'relatively or removed/re-added; query points inside and outside the world; general and per-axis leeways from {negative, 0, '
@@ -24,7 +25,7 @@ RULE = ('cases: seeded worlds (SpaceWorld continuous, DiscreteWorld/GridWorld/Li
 ASSUMPTIONS = ['coordinates and leeways are multiples of 1/8 (exact float arithmetic)', 'F5 (wrap seam ignored) is a known finding, not repaired']
 FLOORS = {'quick': {'queries': 12000, 'queries_nonwrap': 6100, 'queries_wrap': 6300, 'on_face_agents': 5000, 'nonempty_answers': 4900,
                     'empty_answers': 2000, 'negative_leeway_queries': 1000, 'axis_leeway_larger': 3000, 'general_leeway_larger': 3000,
-                    'query_outside_world': 2000, 'coincident_pairs': 500, 'agents_with_position_subclass_component': 1000, 'second_world_on_same_model': 300, 'reach:Environments.SpaceWorld.get_agents_at': 12000},
+                    'query_outside_world': 2000, 'coincident_pairs': 500, 'big_worlds': 8, 'big_queries': 150, 'agents_with_position_subclass_component': 1000, 'second_world_on_same_model': 300, 'reach:Environments.SpaceWorld.get_agents_at': 12000},
           'thorough': {'queries': 1500000, 'on_face_agents': 400000}}
 EXHAUSTIVE = {}
 
@@ -208,14 +209,84 @@ def case_world(ctx, case):
                                    'answer': [a.id for a in got]}})
 
 
+
+def case_big(ctx, case):
+    """Scale regime: 80-400 agents in one non-wrapping world, with churn (agents leaving and joining so that joining numbers exceed the
+    population), many agents exactly on the faces of the query box, queries before and after removals and moves."""
+    rng = ctx.rng('big', case['i'])
+    core, envs = fixtures()
+    P = envs.PositionComponent
+    model = core.Model()
+    grid = rng.random() < 0.5
+    ext = [rng.randint(12, 30), rng.randint(8, 20), rng.choice([0, 5])]
+    env = (envs.DiscreteWorld(model, *ext) if grid else envs.SpaceWorld(model, *[float(e) for e in ext]))
+    model.environment = env
+    off = 1 if grid else 0
+
+    def rnd(k):
+        if not ext[k]:
+            return 0
+        return rng.randint(0, ext[k] - off) if grid else rng.randint(0, (ext[k] - off) * 8) / 8
+
+    n = rng.choice([80, 150, 300, 400])
+    pool = [core.Agent(f'p{j}', model) for j in range(n + n // 3)]
+    order = []
+    for a in pool[:n]:
+        env.add_agent(a, rnd(0), rnd(1), rnd(2))
+        order.append(a)
+
+    def query(what):
+        q = [rnd(k) for k in range(3)]
+        L = rng.choice([0, 1, 2, 3] if grid else [0, 0.5, 1.0, 2.5])
+        AL = [rng.choice([0, L, L + 1]) for _ in range(3)]
+        eff = [max(L, AL[k]) for k in range(3)]
+        for a in rng.sample(order, min(12, len(order))):          # agents exactly on the faces (also the +x face)
+            tgt = [rng.choice([q[k] - eff[k], q[k] + eff[k], q[k] + eff[k], q[k]]) for k in range(3)]
+            if all((not ext[k]) or 0 <= tgt[k] <= ext[k] - off for k in range(3)):
+                env.move_to(a, *[(int(t) if grid else float(t)) for t in tgt])
+        got = env.get_agents_at(q[0], q[1], q[2], L, AL[0], AL[1], AL[2])
+        exp = [a for a in order if all(abs(Fraction(a.components[P].xyz()[k]) - Fraction(q[k])) <= eff[k] for k in range(3))]
+        ctx.ev()
+        ctx.count('big_queries')
+        if not same_objects(got, exp):
+            extra = [a.id for a in got if not any(a is b for b in exp)]
+            missing = [a.id for a in exp if not any(a is b for b in got)]
+            raise CaseViolation(f'{what}: get_agents_at in a world with {len(order)} agents differs from the leeway box' +
+                                (' (joining order)' if not extra and not missing else ''), query=q, leeway=L, axis_leeways=AL,
+                                extra=extra[:8], missing=missing[:8], observed=[a.id for a in got][:12], expected=[a.id for a in exp][:12])
+
+    query('initial population')
+    for rnd_no in range(6):
+        for a in rng.sample(order, max(1, len(order) // 6)):       # churn: some leave ...
+            env.remove_agent(a.id)
+            order.remove(a)
+        query('after removals')
+        for a in rng.sample([b for b in pool if not any(b is c for c in order)], max(1, len(order) // 8)):   # ... others (re)join
+            env.add_agent(a, rnd(0), rnd(1), rnd(2))
+            order.append(a)
+        for a in rng.sample(order, 10):
+            env.move(a, rng.randint(-2, 2), rng.randint(-2, 2), 0)
+        query('after churn and moves')
+        victim = rng.choice(order[:-1])                             # one agent (not the latest joiner) leaves between two queries
+        env.remove_agent(victim.id)
+        order.remove(victim)
+        env.move(rng.choice(order), 1, 0, 0)
+        query('after a single removal')
+    ctx.count('big_worlds')
+    ctx.distinct(('big', grid, tuple(ext), n, case['i']))
+
+
 def run_case(ctx, case):
-    case_world(ctx, case)
+    (case_big if case.get('kind') == 'big' else case_world)(ctx, case)
 
 
 def run(ctx):
     for i in range(N_WORLDS[ctx.tier]):
         if ctx.mine(i) and not ctx.full():
             ctx.run_case({'kind': 'world', 'i': i}, run_case)
+    for i in range(N_BIG[ctx.tier]):
+        if ctx.mine(i) and not ctx.full():
+            ctx.run_case({'kind': 'big', 'i': i}, run_case)
 
 
 def replay(ctx, case):
